@@ -8,7 +8,7 @@ import proofs
 import gen_core as G
 from common import hx
 
-FILES = ["gen/Gen_core.v", "Model_core.v", "Proofs_core.v", "Proofs_total.v", "Inst_core.v"]
+FILES = ["gen/Gen_core.v", "Model_core.v", "Proofs_core.v", "Proofs_total.v", "Inst_core.v", "Entry_core.v", "Extract_core.v"]
 PROP = "Properties/C03.v"
 
 
@@ -181,7 +181,7 @@ def shrink(core, c):
 
 
 def run(chk):
-    ok, br = proofs.prove(chk, FILES, PROP)
+    ok, br = proofs.prove(chk, FILES, PROP, groups=("core",), gen_modules=("core",))
     import pydrex.core as core
     chk.cov["trusted_base"] = common.TRUSTED_COMMON + [
         "hand-written Model_core.derivs (grain loop and combination of per-grain results); tied by the instance lemmas C03_instance_n{1,2,3} (kernel-checked) and by this differential run",
@@ -193,7 +193,7 @@ def run(chk):
                        "n_grains 1..64 and 1e3 [thorough: up to 1e5]); distinct = distinct (regime, phase, fabric, n, O, L, f) byte-wise; "
                        "non-trivial = not all returned rates are zero")
     bad = []
-    if br.driver_ok:
+    if br.drivers.get("core", 1) is None:
         cases = gen_cases(chk, chk.tier)
         bad += compare(chk, core, cases, "derivs")
         small = [c for c in cases if c["ng"] <= 3]
